@@ -76,6 +76,24 @@ NthSlot(s, cur, n) == IF n = 1 THEN cur ELSE NthSlot(s, s.links[cur][2], n - 1)
 RemoveAtPos(s, n) == LET idx == NthSlot(s, s.first, n) IN
     [PlanRemove(s, idx) EXCEPT !.abs = [j \in 1 .. (Len(s.abs) - 1) |-> IF j < n THEN s.abs[j] ELSE s.abs[j + 1]]]
 
+\* PlanT::Iterator: _curr and _next are cached when the iterator is constructed / advanced, remove() acts on _curr.
+\* Sweep = one complete iteration `for (it = plan.begin(); it; ++it)' during which the task at the k-th visited
+\* position is removed through the iterator iff bit k-1 of `mask' is set (positions beyond 16 are never removed).
+MBit(mask, k) == k < 16 /\ (mask \div (2 ^ k)) % 2 = 1
+ItNext(s, cur) == IF cur < CapT THEN s.links[cur][2] ELSE INV
+RECURSIVE SweepFrom(_, _, _, _, _, _)
+SweepFrom(s, cur, nxt, k, mask, visited) ==
+    IF ~(cur < CapT) \/ k > CapT + 1 THEN [s |-> s, visited |-> visited]
+    ELSE LET v  == s.items[cur]                                              \* read before remove(): the links reuse the task's storage
+             s1 == IF MBit(mask, k - 1) THEN PlanRemove(s, cur) ELSE s
+         IN  SweepFrom(s1, nxt, ItNext(s1, nxt), k + 1, mask, Append(visited, <<cur, v[1], v[2]>>))
+RECURSIVE FilterMask(_, _, _)
+FilterMask(seq, mask, i) == IF i > Len(seq) THEN <<>> ELSE (IF MBit(mask, i - 1) THEN <<>> ELSE <<seq[i]>>) \o FilterMask(seq, mask, i + 1)
+Sweep(s, mask) == LET r == SweepFrom(s, s.first, ItNext(s, s.first), 1, mask, <<>>) IN
+    [s |-> [r.s EXCEPT !.abs = FilterMask(s.abs, mask, 1)], visited |-> r.visited]
+\* removing through the iterator must not disturb the iteration: every task of the plan as it was is visited once, in order
+SweepVisitsAll(s, mask) == LET vis == Sweep(s, mask).visited IN [i \in 1 .. Len(vis) |-> <<vis[i][2], vis[i][3]>>] = s.abs
+
 \* PlanT::clearTasks (remove every task following the links, then reset the bounds)
 RECURSIVE ClearFrom(_, _)
 ClearFrom(s, index) == IF index = INV THEN s ELSE LET nx == s.links[index][2] IN ClearFrom(PlanRemove(s, index), nx)
@@ -124,12 +142,14 @@ VARIABLES s, lastop
 
 Ops == {[op |-> "append", v |-> v, n |-> 0] : v \in Vals} \cup {[op |-> "remove", v |-> <<0, 0>>, n |-> n] : n \in 1 .. CapT}
        \cup {[op |-> "clear", v |-> <<0, 0>>, n |-> 0], [op |-> "dataclear", v |-> <<0, 0>>, n |-> 0]}
+       \cup {[op |-> "sweep", v |-> <<0, 0>>, n |-> m] : m \in 1 .. (2 ^ CapT - 1)}
 
 Apply(st, o) ==
     CASE o.op = "append"    -> PlanAppend(st, o.v)
       [] o.op = "remove"    -> [s |-> RemoveAtPos(st, o.n), r |-> TRUE]
       [] o.op = "clear"     -> [s |-> PlanClear(st), r |-> TRUE]
       [] o.op = "dataclear" -> [s |-> DataClear(st), r |-> TRUE]
+      [] o.op = "sweep"     -> [s |-> Sweep(st, o.n).s, r |-> SweepVisitsAll(st, o.n)]
 
 Enabled(st, o) == o.op = "remove" => o.n <= Len(st.abs)
 
@@ -139,6 +159,7 @@ Next == \E o \in Ops : Enabled(s, o) /\ LET a == Apply(s, o) IN s' = a.s /\ last
 InvRefines == Refines(s)
 InvFreeList == FreeListOK(s)
 InvCapacityExact == lastop.op = "append" => (lastop.r = TRUE) \/ (Len(s.abs) = CapT)
+InvSweep == lastop.op = "sweep" => lastop.r = TRUE
 InvAppendAtRoom == \A v \in Vals : (Len(s.abs) < CapT) = PlanAppend(s, v).r
 W_FullThenReused == ~(s.count = CapT /\ s.last = CapT /\ lastop.op = "append" /\ Len(s.abs) = CapT /\ s.items[0] # <<INV, INV>> /\ s.first # 0)
 
